@@ -25,7 +25,7 @@ OUTSIDE = ["Sphinx cross-document resolution (C12)", "arbitrary Unicode names (f
 STUBS = []
 NONTRIVIAL_RULE = "paths with at least one link that resolves to an explicit target or slug and at least one target in the document"
 
-NAMES = ["a", "Name", "x-y", "caf\u00e9"]
+NAMES = ["a", "Name", "x-y", "caf\u00e9", "sec:intro"]
 TITLES = ["a", "A b", "Name", "Z\u00e9"]
 
 
